@@ -1330,11 +1330,38 @@ func SelectExpr(query *Query, current Map, expr *sqlparser.SelectExprs, opts ...
 						return nil
 					})
 				}
+				// a scope reached through the backward reference carries the lazy entries of the
+				// common table expressions in scope: they are not data
+				if scope, ok := valueRaw.(Map); ok {
+					valueRaw = WithoutCtes(scope)
+				}
 				data[name] = valueRaw
 			}
 		}
 	}
 	return data, nil
+}
+
+// WithoutCtes returns the map itself when it holds no unevaluated common table
+// expression, otherwise a copy without those entries
+func WithoutCtes(scope Map) Map {
+	found := false
+	for _, value := range scope {
+		if _, ok := value.(CteEvaluation); ok {
+			found = true
+			break
+		}
+	}
+	if !found {
+		return scope
+	}
+	out := make(Map, len(scope))
+	for key, value := range scope {
+		if _, ok := value.(CteEvaluation); !ok {
+			out[key] = value
+		}
+	}
+	return out
 }
 
 func SubqueryExpr(query *Query, current Map, expr *sqlparser.Subquery, opts ...ExprOption) (any, error) {
